@@ -20,7 +20,9 @@ RUNS = {"quick": 4800, "thorough": 80000, "thorough_s": 400}
 CHUNK = 100
 RUN_TIMEOUT = 120.0
 FINDING = "C11.shape.motif-id-inheritance"
-RULE = ("seeded clean motif networks (cliques 2-4, 4-/5-cycles, 1-3 topologies; 6..16 vertices when all motifs are single "
+RULE = ("seeded clean motif networks (cliques 2-4, 4-/5-cycles, 1-3 topologies, in 30% of the runs plus a motif type whose "
+        "edges carry TWO topology names under one motif id - diamond rim + chord, 4-cycle + both diagonals, 5-cycle + beam, "
+        "triangle + tail - so that corners hold edges of several topologies; vertex annotations as tuples, lists or both side by side; 6..16 vertices when all motifs are single "
         "edges, 12..32 vertices otherwise so that corner swaps find absent target edges, thorough ..60; motif count 0.5-1.5 x "
         "vertices, so motifs share vertices), symmetric targets (uniform/random/assortative/disassortative/spiky; full support "
         "or with pairings removed), search limits 1,2,3,5,10,25 or default, prefix histories of 1..6 (thorough ..9) accepted "
@@ -65,21 +67,42 @@ def shape_problem(G, spec, ids_override=None):
         lost = sorted(set(range(len(motifs))) - set(groups))
         new = sorted(map(repr, set(groups) - set(range(len(motifs)))))
         return f"motif id set changed: lost {lost[:3]}, new {new[:3]}"
-    for mid, es in sorted(groups.items()):
-        t = spec["topos"][motifs[mid]["topo"]]
-        if any(e[2] != t["name"] for e in es):
-            return f"motif {mid}: edge topologies {sorted({str(e[2]) for e in es})}, original {t['name']!r}"
+    for mid, all_es in sorted(groups.items()):
+        pts = netsim.parts(spec, motifs[mid])
+        t = pts[0][1]
+        names_want = {pt["name"] for _, pt, _ in pts}
+        if {e[2] for e in all_es} != names_want:
+            return f"motif {mid}: edge topologies {sorted({str(e[2]) for e in all_es})}, original {sorted(names_want)}"
+        es = [e for e in all_es if e[2] == t["name"]]           # main part
         verts = {x for e in es for x in e[:2]}
         k = t["size"]
         want = k * (k - 1) // 2 if t["kind"] == "clique" else k
         if len(es) != want or len(verts) != k or any(e[0] == e[1] for e in es):
             return (f"motif {mid} ({t['name']}): {len(es)} edges on {len(verts)} vertices {sorted(verts)}, "
                     f"original shape has {want} edges on {k} distinct vertices")
+        H = nx.Graph([(e[0], e[1]) for e in es])
         if t["kind"] == "cycle":
             deg = Counter(x for e in es for x in e[:2])
-            H = nx.Graph([(e[0], e[1]) for e in es])
             if any(c != 2 for c in deg.values()) or not nx.is_connected(H):
                 return f"motif {mid} ({t['name']}): edges {sorted(tuple(sorted(e[:2])) for e in es)} do not form a {k}-cycle"
+        if len(pts) > 1:
+            # chord parts: as many as the original, each placed on the main part as in the original
+            chords = [e for e in all_es if e[2] != t["name"]]
+            if len(chords) != len(pts) - 1 or any(e[0] == e[1] for e in chords):
+                return f"motif {mid} ({t['name']}): {len(chords)} {pts[1][1]['name']!r} edges, original has {len(pts) - 1}"
+            if len({frozenset(e[:2]) for e in chords}) != len(chords):
+                return f"motif {mid} ({t['name']}): repeated {pts[1][1]['name']!r} edge"
+            for a, b, nm in chords:
+                inside = (a in verts) + (b in verts)
+                if t.get("extra_verts"):
+                    if inside != 1:
+                        return f"motif {mid} ({t['name']}): tail edge {(a, b)} has {inside} ends on the body, original has 1"
+                elif inside != 2 or H.has_edge(a, b):
+                    return (f"motif {mid} ({t['name']}): {nm!r} edge {(a, b)} is not a chord between non-adjacent vertices "
+                            f"of the {k}-cycle")
+            allv = verts | {x for e in chords for x in e[:2]}
+            if len(allv) != netsim.motif_size(t):
+                return f"motif {mid} ({t['name']}): {len(allv)} vertices, original has {netsim.motif_size(t)}"
     return None
 
 
@@ -109,11 +132,16 @@ def execute(sc, ctx):
     P = "C11"
     spec = sc["spec"]
     state = {"tainted": False, "swaps": 0}
+    multi = {t["name"] for t in spec["topos"] if "chord_topo" in t or t.get("part_only")}
 
     def on_state(L, prev, G, last_float, info):
         where = f"after {L + 1} accepted swap(s)"
         state["swaps"] = L + 1
         state["final"] = G
+        if multi:
+            made, _ = rewsim.created_edges(prev, G)
+            if len({G.edges[e].get(TOP) for e in made} & multi) >= 2:
+                ctx.probe("swap_of_a_corner_with_edges_of_two_topologies")
         if not structural(ctx, sc, info["G0"], G, where):
             return False
         if state["tainted"]:
